@@ -36,8 +36,10 @@ var vhC17Keys = [][]byte{
 
 func vhC17NKeys() int { return sym.Param("KEYS", 4) }
 
-func vhC17Value(name string) []byte {
-	if sym.Param("LONGV", 0) == 1 && sym.Bool(name+"_long") {
+func vhC17Value(name string) []byte { return vhC17ValueP(name, "LONGV") }
+
+func vhC17ValueP(name, param string) []byte {
+	if sym.Param(param, 0) == 1 && sym.Bool(name+"_long") {
 		// long enough that the node holding it is stored by hash, not embedded
 		v := make([]byte, 33)
 		copy(v, sym.Bytes(name, 2))
